@@ -14,10 +14,10 @@ unset RUSTFLAGS
 git checkout -q -- . || exit 2
 L=$WT/out/verify.log; : > "$L"
 echo "== demo without patch: $*" >> "$L"
-bash -c "$*" >> "$L" 2>&1; D0=$?
+timeout 1200 bash -c "$*" >> "$L" 2>&1; D0=$?
 git apply "$PATCH" || { echo '{"error":"patch does not apply"}'; exit 2; }
 echo "== demo with patch" >> "$L"
-bash -c "$*" >> "$L" 2>&1; D1=$?
+timeout 1200 bash -c "$*" >> "$L" 2>&1; D1=$?
 # the crate's own tests run without the demonstration files (untracked files outside out/ are moved aside)
 HOLD=$WT/out/_hold; rm -rf "$HOLD"; mkdir -p "$HOLD"
 git ls-files --others --exclude-standard | grep -v -E '^(out/|target)' > "$HOLD/list"
@@ -26,14 +26,14 @@ T=0
 for spec in ${CRATES//,/ }; do
   c=${spec%%:*}; X=""; [ "$spec" != "$c" ] && X=${spec#*:}     # crate[:extra-cargo-flag], e.g. libp2p-identity:--all-features
   echo "== cargo test -p $c $X with patch" >> "$L"
-  if ! cargo test -p "$c" $X --offline --no-fail-fast > "$WT/out/_crate_$c.log" 2>&1; then
+  if ! timeout 2400 cargo test -p "$c" $X --offline --no-fail-fast > "$WT/out/_crate_$c.log" 2>&1; then
     cat "$WT/out/_crate_$c.log" >> "$L"
     # timing-based tests of the repository flake on a loaded machine: re-run each failed test alone, up to 3 times
     for t in $(grep -E '^test .* \.\.\. FAILED' "$WT/out/_crate_$c.log" | awk '{print $2}' | sort -u); do
       ok=1
       for k in 1 2 3; do
         echo "== rerun $t ($k)" >> "$L"
-        if cargo test -p "$c" $X --offline -- --exact "$t" >> "$L" 2>&1; then ok=0; break; fi
+        if timeout 900 cargo test -p "$c" $X --offline -- --exact "$t" >> "$L" 2>&1; then ok=0; break; fi
       done
       [ $ok = 0 ] || T=1
     done
